@@ -24,6 +24,8 @@ pub enum Kind {
   Future(u8),
   /// (period ms, declines when seq reaches limit)
   Repeat(u64, usize),
+  /// same, built with RepeatTask::new_immediate (first run right after the delay)
+  RepeatImmediate(u64, usize),
 }
 
 #[derive(Clone, Debug, PartialEq, Eq, Hash)]
@@ -114,6 +116,9 @@ where
     Kind::Repeat(p, lim) => {
       handle_fns(sched.schedule(RepeatTask::new(Duration::from_millis(*p), rep_body, (log.clone(), id, *lim)), delay))
     }
+    Kind::RepeatImmediate(p, lim) => {
+      handle_fns(sched.schedule(RepeatTask::new_immediate(Duration::from_millis(*p), rep_body, (log.clone(), id, *lim)), delay))
+    }
   }
 }
 
@@ -189,7 +194,7 @@ pub fn judge(c: &Case, o: &Result<Obs, String>) -> Option<(String, String, serde
       Kind::Once => "once_task",
       Kind::Subscribing => "subscribing_task",
       Kind::Future(_) => "future_task",
-      Kind::Repeat(..) => "repeat_task",
+      Kind::Repeat(..) | Kind::RepeatImmediate(..) => "repeat_task",
     };
     let evs: Vec<&Ev> = o.evs.iter().filter(|e| e.id == id).collect();
     let show = |why: String| {
@@ -201,7 +206,7 @@ pub fn judge(c: &Case, o: &Result<Obs, String>) -> Option<(String, String, serde
     let runs: Vec<&&Ev> = evs.iter().filter(|e| matches!(e.k, K::Mark("run", _) | K::Mark("rep", _))).collect();
     let cancel = o.cancels.iter().find(|(cid, _, _)| *cid == id);
     match &t.kind {
-      Kind::Repeat(p, lim) => {
+      Kind::Repeat(p, lim) | Kind::RepeatImmediate(p, lim) => {
         let seqs: Vec<i64> = runs.iter().filter_map(|e| if let K::Mark("rep", s) = e.k { Some(s) } else { None }).collect();
         if seqs.iter().enumerate().any(|(i, s)| *s != i as i64) {
           return Some(("wrong_sequence_numbers".into(), kname.into(), show(format!("sequence numbers {:?}", seqs))));
@@ -265,6 +270,7 @@ pub fn random_case(r: &mut Rng) -> Case {
         0 | 1 => Kind::Once,
         2 => Kind::Subscribing,
         3 => Kind::Future(r.below(3) as u8),
+        4 => Kind::RepeatImmediate([1, 5][r.below(2)], 1 + r.below(4)),
         _ => Kind::Repeat([1, 5][r.below(2)], 1 + r.below(4)),
       },
       delay: [None, Some(0), Some(1), Some(5)][r.below(4)],
@@ -296,7 +302,7 @@ pub fn run(cfg: &Cfg, rep: &mut Report) {
         let ran_before = obs.evs.iter().any(|e| e.id == *cid && e.seq < *call && matches!(e.k, K::Mark("run", _)));
         let t = &c.tasks[(*cid - 10) as usize];
         let finished = match t.kind {
-          Kind::Repeat(_, lim) => obs.evs.iter().filter(|e| e.id == *cid && e.seq < *call && matches!(e.k, K::Mark("rep", _))).count() >= lim,
+          Kind::Repeat(_, lim) | Kind::RepeatImmediate(_, lim) => obs.evs.iter().filter(|e| e.id == *cid && e.seq < *call && matches!(e.k, K::Mark("rep", _))).count() >= lim,
           _ => ran_before,
         };
         if !finished {
@@ -320,4 +326,7 @@ pub fn run(cfg: &Cfg, rep: &mut Report) {
       });
     }
   }
+
+  // thread part: worker threads run the bodies while another thread cancels the handles (baton scheduler)
+  super::thr::task_campaign(cfg, rep, cfg.n(6_000, 250_000));
 }
